@@ -2,7 +2,7 @@ use alloc::vec::Vec;
 use core::convert::TryFrom;
 
 use crate::error::{IncompatibleOptionValueFormat, InvalidBlockValue};
-use crate::option_value::{OptionValueType, OptionValueU16};
+use crate::option_value::{OptionValueType, OptionValueU32};
 
 /// The block option value.
 #[derive(Debug, Clone, Eq, PartialEq)]
@@ -57,10 +57,12 @@ impl BlockValue {
 
 impl From<BlockValue> for Vec<u8> {
     fn from(block_value: BlockValue) -> Vec<u8> {
-        let scalar = block_value.num << 4
-            | u16::from(block_value.more) << 3
-            | u16::from(block_value.size_exponent & 0x7);
-        Vec::from(OptionValueU16(scalar))
+        // NUM may need up to 20 bits (RFC 7959 section 2.2), so the scalar
+        // does not fit in 16 bits once `num` reaches 4096.
+        let scalar = u32::from(block_value.num) << 4
+            | u32::from(block_value.more) << 3
+            | u32::from(block_value.size_exponent & 0x7);
+        Vec::from(OptionValueU32(scalar))
     }
 }
 
@@ -68,9 +70,24 @@ impl TryFrom<Vec<u8>> for BlockValue {
     type Error = IncompatibleOptionValueFormat;
 
     fn try_from(value: Vec<u8>) -> Result<Self, Self::Error> {
-        let scalar = OptionValueU16::try_from(value)?.0;
+        if value.len() > 3 {
+            return Err(IncompatibleOptionValueFormat {
+                message: format!(
+                    "overflow: got {} bytes, expected at most 3",
+                    value.len()
+                ),
+            });
+        }
+        let scalar = OptionValueU32::try_from(value)?.0;
 
-        let num: u16 = scalar >> 4;
+        let num = u16::try_from(scalar >> 4).map_err(|_| {
+            IncompatibleOptionValueFormat {
+                message: format!(
+                    "block number {} does not fit in 16 bits",
+                    scalar >> 4
+                ),
+            }
+        })?;
         let more = scalar >> 3 & 0x1 == 0x1;
         let size_exponent: u8 = (scalar & 0x7) as u8;
         Ok(Self {
